@@ -93,68 +93,92 @@ class WorkerProc:
 
 
 class Pool:
-    """At most ``workers`` jobs in flight; a job runs on an interpreter whose PYTHONHASHSEED is the job's."""
+    """
+    Fixed slots, each bound to one simulated PYTHONHASHSEED and owning one (lazily started, reused) worker
+    interpreter; a job is queued for the slots of its hash seed, so which slot serves it and how many slots
+    exist cannot influence it. At most ``workers`` jobs run at a time.
+    """
 
     def __init__(self, workers: int, scratch: str, nunavut_src: str):
+        import queue
+
         self.workers = workers
         self.scratch = scratch
         self.nunavut_src = nunavut_src
-        self.idle = {}  # type: typing.Dict[int, typing.List[WorkerProc]]
         self.lock = threading.Lock()
-        self.exec = concurrent.futures.ThreadPoolExecutor(max_workers=workers)
+        self.sem = threading.Semaphore(workers)
         self.next_id = 0
-        self.all = []  # type: typing.List[WorkerProc]
+        self.closed = False
+        self.queues = [queue.Queue() for _ in range(N_HASH_SEEDS)]  # type: typing.List[typing.Any]
+        n_slots = max(workers, N_HASH_SEEDS)
+        n_slots = (n_slots + N_HASH_SEEDS - 1) // N_HASH_SEEDS * N_HASH_SEEDS
+        self.procs = [None] * n_slots  # type: typing.List[typing.Optional[WorkerProc]]
+        self.threads = []
+        for i in range(n_slots):
+            t = threading.Thread(target=self._slot, args=(i,), daemon=True)
+            t.start()
+            self.threads.append(t)
 
-    def _acquire(self, hs: int) -> WorkerProc:
-        with self.lock:
-            lst = self.idle.get(hs, [])
-            if lst:
-                return lst.pop()
-        w = WorkerProc(HASH_SEED_VALUES[hs % N_HASH_SEEDS], self.scratch, self.nunavut_src)
-        with self.lock:
-            self.all.append(w)
-        return w
-
-    def _release(self, hs: int, w: WorkerProc) -> None:
-        with self.lock:
-            lst = self.idle.setdefault(hs, [])
-            if len(lst) < 2:
-                lst.append(w)
+    def _slot(self, i: int) -> None:
+        hs = i % N_HASH_SEEDS
+        q = self.queues[hs]
+        while True:
+            item = q.get()
+            if item is None:
                 return
-            self.all.remove(w)
-        w.close()
+            fut, job, timeout_s = item
+            if not fut.set_running_or_notify_cancel():
+                continue
+            with self.sem:
+                if self.closed:
+                    fut.set_exception(HarnessError("pool closed"))
+                    continue
+                try:
+                    w = self.procs[i]
+                    if w is None or w.p.poll() is not None:
+                        w = WorkerProc(HASH_SEED_VALUES[hs], self.scratch, self.nunavut_src)
+                        self.procs[i] = w
+                    reply = w.call(job, timeout_s + 30)
+                    if "harness" in reply:
+                        fut.set_exception(HarnessError(reply["harness"]))
+                    else:
+                        fut.set_result(reply["result"])
+                except HarnessError as ex:
+                    if self.procs[i] is not None:
+                        self.procs[i].kill()  # type: ignore
+                        self.procs[i] = None
+                    fut.set_exception(ex)
+                except BaseException as ex:  # pylint: disable=broad-except
+                    fut.set_exception(HarnessError("%s: %s" % (type(ex).__name__, ex)))
 
-    def run(self, prop: str, case: dict, tier: str, timeout_s: float = 900.0) -> dict:
-        hs = int(case.get("hash_seed", 0))
+    def submit(self, prop: str, case: dict, tier: str, timeout_s: float = 900.0) -> "concurrent.futures.Future[dict]":
+        hs = int(case.get("hash_seed", 0)) % N_HASH_SEEDS
         with self.lock:
             self.next_id += 1
             jid = self.next_id
-        w = self._acquire(hs)
         job = {"id": jid, "prop": prop, "case": case, "tier": tier, "timeout_s": timeout_s, "label": case.get("label")}
-        try:
-            reply = w.call(job, timeout_s + 30)
-        except HarnessError:
-            w.kill()
-            with self.lock:
-                if w in self.all:
-                    self.all.remove(w)
-            raise
-        self._release(hs, w)
-        if "harness" in reply:
-            raise HarnessError(reply["harness"])
-        return typing.cast(dict, reply["result"])
+        fut = concurrent.futures.Future()  # type: concurrent.futures.Future
+        self.queues[hs].put((fut, job, timeout_s))
+        return fut
 
-    def submit(self, prop: str, case: dict, tier: str, timeout_s: float = 900.0) -> "concurrent.futures.Future[dict]":
-        return self.exec.submit(self.run, prop, case, tier, timeout_s)
+    def run(self, prop: str, case: dict, tier: str, timeout_s: float = 900.0) -> dict:
+        return typing.cast(dict, self.submit(prop, case, tier, timeout_s).result())
 
     def shutdown(self) -> None:
-        self.exec.shutdown(wait=False, cancel_futures=True)
-        with self.lock:
-            ws = list(self.all)
-            self.all = []
-            self.idle = {}
-        for w in ws:
-            w.kill()
+        self.closed = True
+        for q in self.queues:
+            try:
+                while True:
+                    item = q.get_nowait()
+                    if item is not None:
+                        item[0].cancel()
+            except Exception:  # pylint: disable=broad-except
+                pass
+        for i, _ in enumerate(self.threads):
+            self.queues[i % N_HASH_SEEDS].put(None)
+        for w in list(self.procs):
+            if w is not None:
+                w.kill()
 
 
 def hash_seed_for(seed: int, prop: str, index: typing.Any) -> int:
@@ -365,6 +389,8 @@ def run_check(prop: str, sim: typing.Any, tier: str, seed: int, workers: int, re
                 except HarnessError as ex:
                     agg.harness_errors.append("%s: %s" % (c["label"], ex))
                     continue
+                if os.environ.get("VERIF_TRACE"):
+                    log("done %s evals=%s" % (c["label"], res.get("evaluations")))
                 res_case = res.get("executed", c)
                 for v in res.get("violations", []):
                     v["case"] = res_case
